@@ -1214,6 +1214,11 @@ class Exec:
         ret = self.fresh(name, call.retty)
         if isinstance(ret, Sym):
             ret = ret.with_ov('from', (call.short, tuple(call.args)))
+        elif isinstance(ret, Ptr) and ret.key not in p.mem:
+            # a returned reference: its pointee carries the provenance
+            tgt = self.fresh(ret.key[1], ret.key[2] if len(ret.key) > 2 else '')
+            if isinstance(tgt, Sym):
+                p.mem[ret.key] = tgt.with_ov('from', (call.short, tuple(call.args)))
         p.events.append(Event('call', call.short, call.args, ret, call.span, call.depth, effect))
         k(p, ret)
 
